@@ -352,3 +352,4 @@ def run(ctx):
   check_supported(ctx)
   check_escaping(ctx)
   check_numbering_header(ctx)
+  common.check_history_independence(ctx, common.WRITERS + common.ISD_FILTERS)
